@@ -8,11 +8,11 @@ All statements are about `FitModel/Validator.lean` (`Fit.Validator`): `validate`
 is written. They hold for every `D : Discard` (the float64 arithmetic of `scaleoffset.DiscardValue`, C12).
 
 PROPERTY THEOREMS (audited by ./check): C10_validate_iff_spec, C10_validate_filter, C10_post, C10_post_v1,
-C10_def_sizes_are_bytes, C10_reject, C10_reject_batch, C10_gate_no_panic_partial, C10_gate_no_panic_full_fails,
+C10_def_sizes_are_bytes, C10_reject, C10_reject_batch, C10_gate_no_panic,
 C10_accept_batch, C10_idempotent_partial, C10_idempotent_full_fails_rescale, C10_idempotent_full_fails_empty
 
-Known findings: KF-C10-1 (F11, nil `FieldBase` under protocol 1.0 panics) — `C10_gate_no_panic_partial` excludes
-it, `C10_gate_no_panic_full_fails` refutes the full statement on the witness. KF-C10-2 (a float64 value under base
+Known findings: KF-C10-1 (F11, nil `FieldBase` under protocol 1.0 panicked) is FIXED in /repo: `C10_gate_no_panic`
+is now the full statement. Open: KF-C10-2 (a float64 value under base
 type float64 is scaled again) and KF-C10-3 (all developer fields dropped → the empty message is accepted once,
 rejected the second time): `C10_idempotent_partial` excludes both, `C10_idempotent_full_fails_*` refute the full statement.
 -/
@@ -132,11 +132,8 @@ theorem C10_post_v1 (D : Discard) (o : Options) (st st' : State) (m m' : Message
         intro f hfm
         rw [hf] at hfm
         obtain ⟨g, hg, hk, rfl⟩ := mem_specFields hfm
-        obtain ⟨b, hgb, ha⟩ := hall g hg
         obtain ⟨b', hgb', hb', _, _⟩ := kept_field_props hk
-        rw [hgb] at hgb'
-        cases hgb'
-        exact ⟨b, hb', ha⟩
+        exact ⟨b', hb', hall g hg b' hgb'⟩
 
 /-- **Definition sizes are bytes.** `byte(Value.Size())` in `newMessageDefinition` never truncates for a
 validated message: every size is its own residue modulo 256. -/
@@ -153,7 +150,7 @@ theorem C10_def_sizes_are_bytes (D : Discard) (o : Options) (st : State) (m m' :
 /-- **Rejection.** A message that the targeted protocol version does not allow, or that is not writable
 (`specValidate = none`: a kept value misaligned / not UTF-8 / longer than 255 bytes, more than 255 kept, nothing
 to write, a developer field not backed), never reaches the writer: the gate answers with an error — provided
-the gate does not panic (see `C10_gate_no_panic_partial`). -/
+the gate does not panic, which it never does (`C10_gate_no_panic`). -/
 theorem C10_reject (D : Discard) (ver : Nat) (o : Options) (st : State) (m : Message)
     (h : protoOk ver m = false ∨ specValidate D o st m = none) :
     ∀ m', (gateStream D ver o st m).1 ≠ .ok m' := by
@@ -240,11 +237,13 @@ theorem C10_reject_batch (D : Discard) (ver : Nat) (o : Options) (ms ms' : List 
         subst h
         exact key ms {} r hva
 
-/-- **No panic (partial: excludes the class of KF-C10-1).** If the protocol version is not exactly 1.0, or every
-field of the message has a `FieldBase`, the gate answers with a message or an error. -/
-theorem C10_gate_no_panic_partial (D : Discard) (ver : Nat) (o : Options) (st : State) (m : Message)
-    (h : ver ≠ protoV1 ∨ ∀ f ∈ m.fields, f.base.isSome = true) : (gateStream D ver o st m).1 ≠ .panic := by
-  have hp : protoValidate ver m ≠ .panic := protoValidate_not_panic ver m h
+/-- **No panic.** Whatever the protocol version, the options, the validator state and the message — fields without
+`FieldBase` included — the gate answers with a message or an error. (Before the repair of F11 this held only when
+the version was not 1.0 or every field had a `FieldBase`: the protocol validator dereferenced the nil pointer;
+known finding KF-C10-1, now fixed. The witness stays in the corpus.) -/
+theorem C10_gate_no_panic (D : Discard) (ver : Nat) (o : Options) (st : State) (m : Message) :
+    (gateStream D ver o st m).1 ≠ .panic := by
+  have hp : protoValidate ver m ≠ .panic := protoValidate_not_panic ver m
   unfold gateStream
   cases hq : protoValidate ver m with
   | panic => exact absurd hq hp
@@ -254,29 +253,20 @@ theorem C10_gate_no_panic_partial (D : Discard) (ver : Nat) (o : Options) (st : 
     cases hv : validate D o st m with
     | mk r s => cases r <;> simp
 
-/-- non-vacuity: a record with a heart-rate field under protocol 1.0 meets the hypothesis -/
-example : ∀ f ∈ [({ base := some { num := 3, baseType := btUint8 }, value := .uint8 70 } : Field)], f.base.isSome = true := by
-  intro f hf; simp at hf; subst hf; rfl
-
-/-- the full statement: the gate never panics -/
-def C10_gate_no_panic_full : Prop :=
-  ∀ (D : Discard) (ver : Nat) (o : Options) (st : State) (m : Message), (gateStream D ver o st m).1 ≠ .panic
-
-/-- **KF-C10-1 (F11).** The full statement is false: under protocol 1.0 a field without `FieldBase` is dereferenced. -/
-theorem C10_gate_no_panic_full_fails : ¬ C10_gate_no_panic_full := by
-  intro h
-  have := h (fun v _ _ _ => v) protoV1 {} {}
+/-- the former witness of KF-C10-1 (a record whose second field has no `FieldBase`, protocol 1.0) now passes the
+gate and is written without that field -/
+example : (gateStream (fun v _ _ _ => v) protoV1 {} {}
     { num := 20, fields := [{ base := some { num := 3, baseType := btUint8, nameKnown := true }, value := .uint8 70 },
-                            { base := none, value := .uint8 1 }], devFields := [] }
-  exact this (by decide)
+                            { base := none, value := .uint8 1 }], devFields := [] }).1
+    = .ok { num := 20, fields := [{ base := some { num := 3, baseType := btUint8, nameKnown := true }, value := .uint8 70 }],
+            devFields := [] } := by decide
 
-/-- **Acceptance is complete.** Conversely, when no panic is possible, an allowed and writable message passes
+/-- **Acceptance is complete.** Conversely, an allowed and writable message passes
 the gate unchanged from its specification — nothing that can be written is rejected. -/
 theorem C10_accept_batch (D : Discard) (ver : Nat) (o : Options) (st : State) (m m' : Message)
-    (hp : protoOk ver m = true) (hs : specValidate D o st m = some m')
-    (hn : ver ≠ protoV1 ∨ ∀ f ∈ m.fields, f.base.isSome = true) :
+    (hp : protoOk ver m = true) (hs : specValidate D o st m = some m') :
     (gateStream D ver o st m).1 = .ok m' := by
-  have hnp := C10_gate_no_panic_partial D ver o st m hn
+  have hnp := C10_gate_no_panic D ver o st m
   have hok := ((C10_validate_iff_spec D o st m).1 m').mp hs
   unfold gateStream at hnp ⊢
   cases hq : protoValidate ver m with
